@@ -7,7 +7,9 @@ package main
 
 import (
 	"fmt"
+	"go/token"
 	"go/types"
+	"path/filepath"
 	"sort"
 	"strings"
 	"time"
@@ -173,6 +175,10 @@ type Machine struct {
 	pendAux          uint64
 	pendAuxSet       bool
 	ufLastNonEmpty   map[int]bool
+	siteCache        map[token.Pos]string
+	lastIntrRes      Value
+	lastIntrSt       invStatus
+	harnessFn        map[*ssa.Function]bool
 }
 
 type pathEnd struct{ why string }
@@ -192,6 +198,8 @@ func NewMachine(L *Loaded, H *Harness, pool *WorkPool) (*Machine, error) {
 	m := &Machine{L: L, H: H, tt: NewTermTable(), solver: s, pool: pool,
 		pglobals: map[*ssa.Global]*Cell{}, pinited: map[*ssa.Package]bool{}, fnNames: map[*ssa.Function]string{},
 		coverModels: map[string]*Finding{}}
+	m.siteCache = map[token.Pos]string{}
+	m.harnessFn = map[*ssa.Function]bool{}
 	m.stats.Unsupported = map[string]int{}
 	m.stats.Covers = map[string]int{}
 	m.stats.Asserts = map[string]int{}
@@ -771,4 +779,24 @@ func typeStr(t types.Type) string {
 		return "<nil>"
 	}
 	return types.TypeString(t, nil)
+}
+
+// isHarnessFn: the function is harness / stub / model code (its source file is not part of /repo).
+func (m *Machine) isHarnessFn(fn *ssa.Function) bool {
+	if v, ok := m.harnessFn[fn]; ok {
+		return v
+	}
+	f := fn
+	for f.Parent() != nil {
+		f = f.Parent()
+	}
+	res := false
+	if p := f.Pos(); p.IsValid() {
+		name := m.L.Fset.Position(p).Filename
+		if _, ok := m.L.OverlayRealPath[name]; ok || strings.HasPrefix(filepath.Base(name), "zz_verif") {
+			res = true
+		}
+	}
+	m.harnessFn[fn] = res
+	return res
 }
